@@ -291,11 +291,42 @@ def run_s2(chk, P):
                                  name, lo, hi, fld, ' of the completed lane' if k == 'idx' else '', have or other or 'nothing'))
 
 
+def frame_zero_bytes():
+    """{assembled routine: number of distinct bytes of its own stack frame it overwrites with zero} (SAFE_DATA clearing of spilled
+    state: keys, keystream, hash state saved across calls)"""
+    out = {}
+    for rel, name, r in asmfacts.all_functions():
+        byk = {}
+        for a, kind, lo, hi in r.get('zstack', ()):
+            byk.setdefault(kind, []).append((lo, hi))
+        n = 0
+        for kind, iv in byk.items():
+            n += sum(hi - lo for lo, hi in _merge(iv))
+        if n:
+            out[name] = n
+    return out
+
+
+def run_s8(chk):
+    s8 = chk.rule('S8', 'every assembled routine still overwrites with zero at least as many bytes of its own stack frame as on the reference '
+                        'tree (clearing of state spilled to the stack; a byte count, so that a changed frame layout is not a finding)', floor=40)
+    with open(SCRUB_BASELINE) as fjs:
+        base = json.load(fjs).get('frame_zero', {})
+    cur = frame_zero_bytes()
+    names = {n for _, n, _ in asmfacts.all_functions()}
+    for name, nb in sorted(base.items()):
+        if name not in names:
+            continue
+        s8.check(cur.get(name, 0) >= nb, name, name, '%s zeroes %d bytes of its stack frame, %d on the reference tree: spilled state is left behind' % (
+            name, cur.get(name, 0), nb))
+
+
 def write_scrub_baseline(P):
     cov = scrub_coverage(P)
     with open(SCRUB_BASELINE, 'w') as f:
         json.dump({'note': 'per out-of-order manager routine: field-relative byte ranges it overwrites with zero on the reference tree '
-                           '(SAFE_DATA build); python3 -m imbv.rules.c13 --write-baseline', 'coverage': cov}, f, indent=0)
+                           '(SAFE_DATA build); frame_zero: bytes of its own stack frame a routine zeroes; python3 -m imbv.rules.c13 --write-baseline',
+                   'coverage': cov, 'frame_zero': frame_zero_bytes()}, f, indent=0)
     return sum(len(v) for v in cov.values())
 
 
@@ -326,6 +357,7 @@ def run(chk):
     run_s1(chk, P)
     run_asm(chk, P)
     run_s2(chk, P)
+    run_s8(chk)
     # S4: road block coverage and whole-manager clears (shared)
     inits.rule_reattach(chk, P)
     inits.rule_reset(chk, P, 'S4.')
